@@ -523,9 +523,10 @@ class Machine(TreeEval):
             key = self._kcache.get(id(place))
             if key is None:
                 key = self._kcache[id(place)] = show(unstamp(place))
-            if key in self.memv:
+            if key in self.memv and e[1] != 0:
+                # the version stamp counts the earlier writes that may alias the place: 0 = the value on entry
                 h = self.memv[key]
-                return h[-1]
+                return h[min(e[1], len(h)) - 1] if isinstance(e[1], int) else h[-1]
             if place[0] in ("index", "tbl"):
                 b0 = place[1]
                 while b0[0] in ("deref", "ref"):
@@ -537,6 +538,15 @@ class Machine(TreeEval):
                         if not (0 <= i < len(nb)):
                             raise Panic("index out of bounds")
                         return nb[i]
+                    try:
+                        tb = self.table(b0[1])       # a table of 64-bit words (bitboards, keys)
+                    except (KeyError, ValueError):
+                        tb = None
+                    if tb is not None:
+                        i = self.ev(place[2])
+                        if not (0 <= i < len(tb)):
+                            raise Panic("index out of bounds")
+                        return tb[i]
                 if b0[0] == "alloc":
                     a = self.facts.allocs.get(str(b0[1])) or self.facts.allocs.get(b0[1])
                     if a and not a.get("relocs"):
@@ -643,11 +653,20 @@ class Machine(TreeEval):
                     return ("iter", "enum", list(src[1:]), 0)
                 raise Stuck("enumerate over " + repr(src)[:60])
             if last == "map" and "Iterator" in name:
-                src = self.ev(e[2][0])
-                clo = e[2][1]
-                if isinstance(src, tuple) and src[0] == "iter" and src[1] == "seq":
-                    return ("iter", "seq", tuple(self.call_closure(clo, (x,)) for x in src[2]), 0)
-                raise Stuck("map over " + repr(src)[:60])
+                items = self._as_seq(name, self.ev(e[2][0]))
+                return ("iter", "seq", tuple(self.apply(e[2][1], (x,)) for x in items), 0)
+            if last == "chain" and "Iterator" in name and len(e[2]) == 2:
+                return ("iter", "seq", self._as_seq(name, self.ev(e[2][0])) + self._as_seq(name.replace("chain", "chain2"), self.ev(e[2][1])), 0)
+            if last == "fold" and "Iterator" in name and len(e[2]) == 3:
+                acc = self.ev(e[2][1])
+                for x in self._as_seq(name, self.ev(e[2][0])):
+                    acc = self.apply(e[2][2], (acc, x))
+                return acc
+            if last == "filter" and "Iterator" in name and len(e[2]) == 2:
+                items = self._as_seq(name, self.ev(e[2][0]))
+                return ("iter", "seq", tuple(x for x in items if self.apply(e[2][1], (x,))), 0)
+            if name == "<indirect>" and e[2]:
+                return self.apply(e[2][0], tuple(self.ev(a) for a in e[2][1:]))
             if last == "bytes" and "str" in name:
                 s = self.ev(e[2][0])
                 if s[0] == "str":
@@ -921,6 +940,46 @@ class Machine(TreeEval):
                 return self.ev(("call", f[1], tuple(("lit", a) for a in args)))
             return ("agg", _last(f[1]), tuple(args))     # a tuple-variant constructor used as a function
         return self.call_closure(f, args)
+
+    def _as_seq(self, name, v):
+        """The receiver of a std iterator adapter as a finite sequence: a modelled iterator, or a library iterator type drained through
+        its own `next` (the model of that function is evaluated until it returns None)."""
+        if isinstance(v, tuple) and v and v[0] == "iter" and v[1] == "seq":
+            return tuple(v[2][v[3]:])
+        if isinstance(v, tuple) and v and v[0] == "bytes":
+            return tuple(ord(c) for c in v[1])
+        if name.startswith("<owlchess"):
+            ty = name[1:].split(" as ")[0]
+            nx = self.facts.fns.get("<%s as core::iter::traits::iterator::Iterator>::next" % ty)
+            if nx is not None:
+                items = []
+                state = v
+                for _ in range(300):
+                    ck = (id(self.facts), nx.id, ())
+                    m = _MACHINES.get(ck)
+                    if m is None:
+                        m = _MACHINES[ck] = Machine(self.facts, FxBuilder(self.facts, ai_mode=True, max_depth=12, max_blocks=400).tree(nx))
+                    m.reset()
+                    m.syms[1] = state
+                    m.mem = lambda place, mm: _self_mem(place, mm)
+                    r = m.start()
+                    steps = 0
+                    while r[0] == "at" and steps < 100:
+                        r = m.resume(r[1])
+                        steps += 1
+                    if r[0] != "ret":
+                        raise Stuck("next() of %s ends with %s" % (ty, r[0]))
+                    for k_, hist in m.memv.items():
+                        if k_.startswith("*self") or k_.startswith("(*self)"):
+                            state = hist[-1]
+                    val = r[1]
+                    if not (isinstance(val, tuple) and val[0] == "agg" and val[1] in ("Some", "None")):
+                        raise Stuck("next() of %s returns %r" % (ty, val))
+                    if val[1] == "None":
+                        return tuple(items)
+                    items.append(val[2][0])
+                raise Stuck("iterator of %s does not end" % ty)
+        raise Stuck("iterator value %r" % (v,))
 
     def _named_bytes(self, name):
         """Bytes of a constant that is (a reference to) a byte string, or None."""
